@@ -126,6 +126,9 @@ def gen(tier, rng):
     yield {"recs": [["rle", 0x10, 0xFFFF, 1], ["rle", 0x20, 1, 2]], "delta": 3}
     yield {"recs": [plain(0x4010, 1), plain(0x4000, 0x20)], "delta": 0}   # overlapping, later wins
     yield {"recs": [plain(0x4000, 2), plain(0x4000, 1)], "delta": 0}
+    table = ["plain", 0x12000, 6, 9]
+    yield {"recs": [table, ["plain", 0x12002, 2, 0xEE], table], "delta": 0}            # write, poke, restore: the repeated record is applied again
+    yield {"recs": [["rle", 0x300, 8, 1], ["rle", 0x302, 2, 2], ["rle", 0x300, 8, 1]], "delta": 0x10}
     yield {"recs": [plain(0x454F00, 4)], "delta": 0x46}                  # lands on 0x454F46 after delta
     # EOF marker (and record headers) across the 8 KiB edge of a buffered reader
     for edge in (8192, 16384):
